@@ -150,7 +150,9 @@ func thoroughExtras(prog *Program, c *Check, repo, verif string) {
 		gen, rep, inv := mutationSensitivity(prog, repo, verif, c.Property, c.anchoredFuncs, known, 4)
 		c.Extra["mutation_sensitivity"] = map[string]int{"mutants_applied": gen, "reported_in_the_mutated_function": rep, "discarded_not_type_correct": inv}
 		fmt.Printf("%s thorough: mutation sensitivity %d/%d mutants of anchored functions reported (%d discarded)\n", c.Property, rep, gen, inv)
-		if gen >= 20 && rep*2 < gen {
+		// attribution is by function key and batches carry one mutant per function; a mutant reported only at a caller is
+		// not counted. The check is broken only when the rules report (next to) nothing any more.
+		if gen >= 20 && rep*5 < gen {
 			c.Brokenf("only %d of %d mutants of the anchored functions are reported", rep, gen)
 		}
 	}
